@@ -97,6 +97,26 @@ func (w *World) NextStamp() dyn.Val {
 			return dyn.FloatVal(math.Inf(1))
 		}
 	}
+	if n%13 == 0 && w.T.Kind == dyn.KFloat {
+		// floats of tiny magnitude (subnormal in the element type, or normal
+		// but far below single-precision range) and the negative zero: a store
+		// that "cleans up" such values is not a store of the value
+		var tiny []float64
+		if w.T.Bits == 32 {
+			tiny = []float64{float64(math.Float32frombits(1)), float64(math.Float32frombits(0x00400000)), float64(float32(1e-40)), float64(math.Float32frombits(0x00800000))}
+		} else {
+			tiny = []float64{math.SmallestNonzeroFloat64, 1e-310, 1e-300, 1e-40, 0x1p-126, 0x1p-1022}
+		}
+		k := int(n / 13)
+		v := tiny[k%len(tiny)]
+		switch k % 5 {
+		case 1, 3:
+			v = -v
+		case 4:
+			v = math.Copysign(0, -1)
+		}
+		return dyn.FloatVal(v)
+	}
 	switch {
 	case w.T.Bits == 8:
 		n = 1 + (n-1)%100
